@@ -235,6 +235,14 @@ namespace occa {
         }
       } while (it != reservations.end());
 
+      /*
+      The offsets are the keys of the reservation set and have just changed
+      (two empty reservations can even end up on the same offset): rebuild
+      the set so that its order matches its keys again
+      */
+      reservationSet moved(reservations.begin(), reservations.end());
+      reservations.swap(moved);
+
       /*Clean up old buffer*/
       delete buffer;
 
@@ -342,6 +350,14 @@ namespace occa {
           setPtr(m, newBuffer, m->offset - (lo - offset));
         }
       } while (it != reservations.end());
+
+      /*
+      The offsets are the keys of the reservation set and have just changed
+      (two empty reservations can even end up on the same offset): rebuild
+      the set so that its order matches its keys again
+      */
+      reservationSet moved(reservations.begin(), reservations.end());
+      reservations.swap(moved);
 
       /*Clean up old buffer*/
       delete buffer;
